@@ -13,3 +13,6 @@ pub fn create_file_tokenizer(input: File) -> Result<StringView, std::io::Error> 
 pub fn create_string_tokenizer(input: String) -> StringView {
     input.into()
 }
+
+#[cfg(feature = "verif")]
+pub use self::row_col_view::create_row_col_view;
